@@ -91,15 +91,23 @@ func (h *Hub) HandleShipHandshakeStateUpdate(ski string, state model.ShipState) 
 
 	service := h.ServiceForSKI(ski)
 
+	// state updates may come in from different go routines at the same time, storing the new
+	// detail and taking its sequence number has to be one step, otherwise the stored detail
+	// could be another one than the one being reported last
+	h.muxPairingUpdate.Lock()
 	existingDetails := service.ConnectionStateDetail()
 	existingState := existingDetails.State()
-	if existingState != pairingState || !errors.Is(existingDetails.Error(), state.Error) {
+	changed := existingState != pairingState || !errors.Is(existingDetails.Error(), state.Error)
+	var counter uint64
+	if changed {
 		service.SetConnectionStateDetail(pairingDetail)
 
-		h.muxPairingUpdate.Lock()
 		h.pairingUpdateCounter++
-		counter := h.pairingUpdateCounter
-		h.muxPairingUpdate.Unlock()
+		counter = h.pairingUpdateCounter
+	}
+	h.muxPairingUpdate.Unlock()
+
+	if changed {
 
 		// always send a delayed update, as the processing of the new state has to be done
 		// and the SHIP message has to be received by the other service before
